@@ -319,7 +319,9 @@ def plan_C03(ctx):
     run_family(ctx, "mass_delete", n_of(ctx, 5, 60), perfile=1, seed_off=2)
     run_family(ctx, "fault_merge", n_of(ctx, 64, 512), perfile=16)               # one read of a file-backed input fails while the merge runs
     run_family(ctx, "merge_chain", n_of(ctx, 20, 300), perfile=10, seed_off=2)
+    run_family(ctx, "card_boundary", n_of(ctx, 6, 24), perfile=1, seed_off=4)      # live cardinality on a chunk-size step, deleted 1-hit inputs
     canary(ctx)
+
 
 
 def plan_C04(ctx):
@@ -348,7 +350,7 @@ def plan_C06(ctx):
     run_family(ctx, "stored_shapes", n_of(ctx, 200, 4000), perfile=n_of(ctx, 20, 40))
     run_family(ctx, "stored_sweep", n_of(ctx, 80, 400), perfile=5)
     run_family(ctx, "extremes", n_of(ctx, 3, 36), perfile=1, seed_off=5)         # stored values of tens of kilobytes
-    run_family(ctx, "big_stored", n_of(ctx, 2, 12), perfile=1, seed_off=1)
+    run_family(ctx, "big_stored", n_of(ctx, 3, 12), perfile=1, seed_off=1)          # runs, incompressible values, one block beyond 64 MiB
     run_family(ctx, "copy_boundary", n_of(ctx, 6, 60), perfile=2)                 # output blocks ending inside a copied source block
     run_family(ctx, "huge", n_of(ctx, 2, 8), perfile=1, seed_off=4)
     canary(ctx)
@@ -359,6 +361,7 @@ def plan_C07(ctx):
     e1_dv(ctx)
     run_family(ctx, "dv_small", n_of(ctx, 200, 4000), perfile=n_of(ctx, 20, 40))
     run_family(ctx, "dv_walk", n_of(ctx, 24, 300), perfile=2)
+    run_family(ctx, "big_dv", n_of(ctx, 2, 8), perfile=1)                           # one doc-value chunk beyond 16 MiB
     run_family(ctx, "dv_merge_order", n_of(ctx, 8, 80), perfile=2, seed_off=1)
     run_family(ctx, "fault_dv_partial", n_of(ctx, 256, 1024), perfile=64, seed_off=1)   # readers of several fields out of step after a failed load
     require_cov(ctx, "tag:dv_chunk_gap")
@@ -434,6 +437,7 @@ def plan_C11(ctx):
     run_family(ctx, "conc_write", n_of(ctx, 12, 200), perfile=6, seed_off=1)
     run_family(ctx, "faults_w", n_of(ctx, 2, 40), perfile=1, seed_off=3)     # the count returned = the bytes the destination received
     run_family(ctx, "faults_big", n_of(ctx, 2, 16), perfile=1)                # file-backed segment of several 64 KiB pieces
+    run_family(ctx, "big_stored", n_of(ctx, 2, 12), perfile=1, seed_off=2)    # memory-backed segments of more than a megabyte
     run_family(ctx, "roundtrip", n_of(ctx, 150, 3000), perfile=n_of(ctx, 10, 30), seed_off=7)
     run_family(ctx, "merge_obs", n_of(ctx, 150, 3000), perfile=20, seed_off=8)
     canary(ctx)
@@ -458,6 +462,7 @@ def plan_C13(ctx):
     run_family(ctx, "dv_walk", n_of(ctx, 8, 100), perfile=2, seed_off=9)
     run_family(ctx, "iter_share", n_of(ctx, 80, 1500), perfile=20, seed_off=1)
     run_family(ctx, "match", n_of(ctx, 60, 600), perfile=20, seed_off=3)           # the dictionary kept between consecutive terms of one call
+    run_family(ctx, "fault_transient", n_of(ctx, 24, 240), perfile=6, seed_off=2, env_extra={"VERIF_INLINE": "1"})   # caches keyed before a read that failed
     canary(ctx)
 
 
@@ -467,6 +472,7 @@ def plan_C14(ctx):
     run_family(ctx, "pool_big", n_of(ctx, 4, 40), perfile=1, env_extra={"VERIF_INLINE": "1"})
     run_family(ctx, "wide_repeat", n_of(ctx, 12, 200), perfile=4, env_extra={"VERIF_INLINE": "1"})   # wide schema, sparse stored fields
     run_family(ctx, "pool_vocab", n_of(ctx, 4, 24), perfile=1, env_extra={"VERIF_INLINE": "1"})     # > 10 000 distinct terms vs small vocabularies
+    run_family(ctx, "pool_wrap", n_of(ctx, 6, 24), perfile=2, env_extra={"VERIF_INLINE": "1"})     # a builder's 65536th document
     run_family(ctx, "proc_history", n_of(ctx, 6, 60), perfile=3)                   # the same batch in fresh processes with different first builds
     run_family(ctx, "conc_build", n_of(ctx, 40, 600), perfile=n_of(ctx, 10, 20))
     run_family(ctx, "conc_write", n_of(ctx, 8, 160), perfile=4, seed_off=3)
@@ -481,6 +487,7 @@ def plan_C15(ctx):
     run_family(ctx, "immut", n_of(ctx, 80, 1500), perfile=n_of(ctx, 8, 20))
     run_family(ctx, "dv_merge_order", n_of(ctx, 8, 80), perfile=2)                  # inputs read again after merges (small before large)
     run_family(ctx, "fault_then_merge", n_of(ctx, 30, 500), perfile=10, seed_off=1)  # inputs read again after abandoned merges
+    run_family(ctx, "iter_share", n_of(ctx, 40, 600), perfile=20, seed_off=3)        # caller bitmaps handed to iterators that are recycled later
     canary(ctx)
 
 
@@ -526,7 +533,7 @@ def plan_C19(ctx):
     run_family(ctx, "fault_dv_partial", n_of(ctx, 512, 2048), perfile=64)                           # every read of a chunk load as the failure point, both directions
     run_family(ctx, "fault_transient", n_of(ctx, 48, 480), perfile=6)                               # one failing read, then healthy storage
     run_family(ctx, "fault_transient", n_of(ctx, 24, 240), perfile=6, seed_off=1, env_extra={"VERIF_INLINE": "1"})   # same goroutine: same pooled scratch
-    require_cov(ctx, "tag:fst_failed")
+    require_cov(ctx, "tag:fst_failed", "fsweep_once", "fsweep_after")
 
 
 PLANS = {
